@@ -172,7 +172,7 @@ def prune(max_age_days=2.0, keep_min=400):
                     os.remove(p)
                 except OSError:
                     pass
-    for d in glob.glob(os.path.join(BUILD, "model-*")):
+    for d in glob.glob(os.path.join(BUILD, "model-*")) + glob.glob(os.path.join(BUILD, "realtools-*")):
         st = os.path.join(d, ".done")
         if not os.path.exists(st) or now - os.path.getmtime(st) > max_age_days * 86400:
             shutil.rmtree(d, ignore_errors=True)
@@ -216,6 +216,21 @@ def build_harness(which):
         ]
         main = b.obj(H(which + ".cpp"), [], rh + vh, "-O1")
         return b.link(which, [main, host, hexo] + tools)
+    if which == "realtools":
+        # The four executables as the repository builds them (guard off, real main), for the
+        # second-layer cross-checks of C14/C11.  Returns the directory holding them.
+        flags = [f for f in BASE_FLAGS if f != "-DHEX_VERIF"]
+        outdir_key = sha("realtools", files_hash(rh + [os.path.join(REPO, t + ".cpp") for t in ("hexasm", "xcmp", "xrun", "hexsim", "hex")]))
+        outdir = os.path.join(BUILD, "realtools-" + outdir_key)
+        if not os.path.exists(os.path.join(outdir, ".done")):
+            os.makedirs(outdir, exist_ok=True)
+            def one(t):
+                run([CXX] + flags + ["-O1", "-o", os.path.join(outdir, t), os.path.join(REPO, t + ".cpp"), os.path.join(REPO, "hex.cpp")])
+            with cf.ThreadPoolExecutor(max_workers=4) as ex:
+                list(ex.map(one, ["hexasm", "xcmp", "xrun", "hexsim"]))
+            open(os.path.join(outdir, ".done"), "w").write("ok")
+        touch(os.path.join(outdir, ".done"))
+        return outdir
     raise SystemExit("unknown harness " + which)
 
 if __name__ == "__main__":
